@@ -6,8 +6,9 @@ A self-contained presentation of the part of the language for which compiler cor
 proved (C02, with C05's `if`, C06's `&&`/`||` and C07's balance as corollaries):
 
 literals, `true`/`false`/`null`, unary `! - ~`, the binary operators (with the right-to-left
-evaluation of `<` and `<=`), `&&`, `||`, `if`/`else` with expression branches, reads of and
-assignments to global variables.
+evaluation of `<` and `<=`), `&&`, `||`, `if`/`else` with expression branches, `match` with
+literal / range / default patterns and `|` alternatives, reads of and assignments to global
+variables.
 
 * `eval`     — reference evaluation (left to right, short-circuit, operators of `P2sh.execOperator`);
 * `compile`  — the functional presentation of what `src/compiler/mod.rs` emits for the fragment:
@@ -21,6 +22,15 @@ open P2sh
 inductive UnOp where | bang | minus | bnot
 deriving Repr, DecidableEq
 
+/-- a pattern of a match arm -/
+inductive CPat where
+  | lit (v : Val)                          -- integer / char / byte / string literal: goes to the constant pool
+  | bool (b : Bool)                        -- `true` / `false`: compared against `True` / `False`
+  | range (incl : Bool) (lo hi : Val)      -- `lo..hi` (`incl = false`) / `lo..=hi`: two pool constants
+  | dflt                                   -- `_`
+deriving Repr
+
+mutual
 inductive CExpr where
   | lit (v : Val)                         -- a literal that goes to the constant pool
   | tru | fls | null
@@ -33,7 +43,50 @@ inductive CExpr where
   | ite (c t e : CExpr)                   -- if c { t } else { e }
   | gget (i : Nat)
   | gset (i : Nat) (e : CExpr)            -- `x = e` for a global `x`: the value stays on the stack
-deriving Repr
+  | matchE (scrut : CExpr) (arms : CArms) -- `match scrut { arms }`
+/-- the arms of a `match`.  The parser guarantees that the last arm is the default arm
+(`_ => e` written by the user, or `_ => null` appended by `parse_match_expr`): it is the
+`last` constructor, so every match of the fragment has it by construction. -/
+inductive CArms where
+  | last (dflt : CExpr)                                       -- `_ => dflt`
+  | cons (pats : List CPat) (body : CExpr) (rest : CArms)     -- `p1 | p2 | … => body, rest`
+end
+
+deriving instance Repr for CExpr, CArms
+
+/-- every arm body (the default's included) satisfies `P` -/
+def CArms.All (P : CExpr → Prop) : CArms → Prop
+  | .last d => P d
+  | .cons _ b r => P b ∧ CArms.All P r
+
+/-- structural induction over expressions with ONE motive: the arms of a `match` come with
+`CArms.All motive` (the induction hypothesis for every arm body) -/
+@[induction_eliminator]
+theorem CExpr.ind {motive : CExpr → Prop}
+    (lit : ∀ v, motive (.lit v)) (tru : motive .tru) (fls : motive .fls) (null : motive .null)
+    (un : ∀ op e, motive e → motive (.un op e))
+    (bin : ∀ op a b, motive a → motive b → motive (.bin op a b))
+    (lt : ∀ a b, motive a → motive b → motive (.lt a b))
+    (le : ∀ a b, motive a → motive b → motive (.le a b))
+    (and : ∀ a b, motive a → motive b → motive (.and a b))
+    (or : ∀ a b, motive a → motive b → motive (.or a b))
+    (ite : ∀ c t e, motive c → motive t → motive e → motive (.ite c t e))
+    (gget : ∀ i, motive (.gget i))
+    (gset : ∀ i e, motive e → motive (.gset i e))
+    (matchE : ∀ s arms, motive s → arms.All motive → motive (.matchE s arms)) : ∀ e, motive e :=
+  fun e => CExpr.rec (motive_1 := motive) (motive_2 := CArms.All motive)
+    lit tru fls null un bin lt le and or ite gget gset matchE
+    (fun _ h => h) (fun _ _ _ hb hr => ⟨hb, hr⟩) e
+
+/-- list-like induction over the arms -/
+theorem CArms.ind {motive : CArms → Prop}
+    (last : ∀ d, motive (.last d))
+    (cons : ∀ pats body rest, motive rest → motive (.cons pats body rest)) : ∀ a, motive a :=
+  fun a => CArms.rec (motive_1 := fun _ => True) (motive_2 := motive)
+    (fun _ => trivial) trivial trivial trivial (fun _ _ _ => trivial) (fun _ _ _ _ _ => trivial)
+    (fun _ _ _ _ => trivial) (fun _ _ _ _ => trivial) (fun _ _ _ _ => trivial) (fun _ _ _ _ => trivial)
+    (fun _ _ _ _ _ _ => trivial) (fun _ => trivial) (fun _ _ _ => trivial) (fun _ _ _ _ => trivial)
+    (fun d _ => last d) (fun p b r _ hr => cons p b r hr) a
 
 /-! ## reference evaluation -/
 
@@ -42,6 +95,34 @@ def applyUn : UnOp → Val → OpRes
   | .minus, v => unaryMinus v
   | .bnot, v => unaryNot v
 
+/-- the test the match template performs for one pattern with the scrutinee `v`:
+`some true` — jump to the arm's body; `some false` — go on with the next pattern; `none` — a
+runtime error of one of the comparisons.  Equality is the VM's `NotEqual` followed by
+`JumpIfFalse`; a range is `GreaterEq` against the lower bound, then `GreaterEq` (exclusive) or
+`Greater` (inclusive) against the upper bound, the body being entered when that is *false*. -/
+def patTest (v : Val) : CPat → Option Bool
+  | .lit p => (match execOperator .notEqual v p with | .ok r => some r.isFalsey | _ => none)
+  | .bool b => (match execOperator .notEqual v (.bool b) with | .ok r => some r.isFalsey | _ => none)
+  | .range incl lo hi =>
+    (match execOperator .greaterEq v lo with
+     | .ok r1 =>
+       if r1.isFalsey then some false
+       else (match execOperator (if incl then .greater else .greaterEq) v hi with
+         | .ok r2 => some r2.isFalsey
+         | _ => none)
+     | _ => none)
+  | .dflt => some true
+
+/-- the alternatives `p1 | p2 | …` of one arm, left to right, stopping at the first that matches -/
+def patsTest (v : Val) : List CPat → Option Bool
+  | [] => some false
+  | p :: ps =>
+    (match patTest v p with
+     | some true => some true
+     | some false => patsTest v ps
+     | none => none)
+
+mutual
 /-- `some (v, g')`: the value and the globals afterwards; `none`: a runtime error -/
 def eval (g : List Val) : CExpr → Option (Val × List Val)
   | .lit v => some (v, g)
@@ -90,6 +171,20 @@ def eval (g : List Val) : CExpr → Option (Val × List Val)
     match eval g e with
     | some (v, g1) => if i < g1.length then some (v, g1.set i v) else none
     | none => none
+  | .matchE s arms =>
+    -- the scrutinee is evaluated once; its value is tested against the arms in order
+    match eval g s with
+    | some (v, g1) => evalArms g1 v arms
+    | none => none
+/-- the first arm one of whose patterns matches `v` yields the value of its body -/
+def evalArms (g : List Val) (v : Val) : CArms → Option (Val × List Val)
+  | .last d => eval g d
+  | .cons pats body rest =>
+    match patsTest v pats with
+    | some true => eval g body
+    | some false => evalArms g v rest
+    | none => none
+end
 
 /-! ## instructions -/
 
@@ -105,6 +200,7 @@ inductive Instr where
   | getGlobal (i : Nat)
   | setGlobal (i : Nat)
   | defGlobal (i : Nat)    -- DefineGlobal: pops
+  | dup
 deriving Repr
 
 def Instr.size : Instr → Nat
@@ -127,6 +223,42 @@ theorem Instr.size_pos (i : Instr) : 0 < i.size := by cases i <;> simp [Instr.si
 def unInstr : UnOp → Instr
   | .bang => .bang | .minus => .minus | .bnot => .bnot
 
+/-- constants a pattern adds to the pool -/
+def patConsts : CPat → List Val
+  | .lit v => [v]
+  | .bool _ | .dflt => []
+  | .range _ lo hi => [lo, hi]
+
+def patsConsts : List CPat → List Val
+  | [] => []
+  | p :: ps => patConsts p ++ patsConsts ps
+
+/-- code size of a pattern's test -/
+def patBytes : CPat → Nat
+  | .lit _ => 8        -- Dup; Constant; NotEqual; JumpIfFalse
+  | .bool _ => 6       -- Dup; True/False; NotEqual; JumpIfFalse
+  | .range .. => 16
+  | .dflt => 3         -- Jump
+
+def patsBytes : List CPat → Nat
+  | [] => 0
+  | p :: ps => patBytes p + patsBytes ps
+
+/-- the test of one pattern, at byte position `pos`, jumping to `body` on a match -/
+def compilePat (pos k body : Nat) : CPat → List Instr
+  | .lit _ => [.dup, .const k, .op .notEqual, .jif body]
+  | .bool b => [.dup, if b then .tru else .fls, .op .notEqual, .jif body]
+  | .range incl _ _ =>
+    -- Dup; lo; GreaterEq; JumpIfFalse next; Dup; hi; GreaterEq|Greater; JumpIfFalse body; next:
+    [.dup, .const k, .op .greaterEq, .jif (pos + 16),
+     .dup, .const (k + 1), .op (if incl then .greater else .greaterEq), .jif body]
+  | .dflt => [.jump body]
+
+def compilePats (pos k body : Nat) : List CPat → List Instr
+  | [] => []
+  | p :: ps => compilePat pos k body p ++ compilePats (pos + patBytes p) (k + (patConsts p).length) body ps
+
+mutual
 /-- constants an expression adds to the pool, in emission order -/
 def consts : CExpr → List Val
   | .lit v => [v]
@@ -137,7 +269,13 @@ def consts : CExpr → List Val
   | .and a b | .or a b => consts a ++ consts b
   | .ite c t e => consts c ++ consts t ++ consts e
   | .gset _ e => consts e
+  | .matchE s arms => consts s ++ constsArms arms
+def constsArms : CArms → List Val
+  | .last d => consts d
+  | .cons pats body rest => patsConsts pats ++ consts body ++ constsArms rest
+end
 
+mutual
 /-- compile at absolute byte position `pos` with `k` constants already in the pool -/
 def compile (pos k : Nat) : CExpr → List Instr
   | .lit _ => [.const k]
@@ -177,6 +315,32 @@ def compile (pos k : Nat) : CExpr → List Instr
     cc ++ [.jif pe] ++ ct ++ [.jump (pe + bytes ce)] ++ ce
   | .gget i => [.getGlobal i]
   | .gset i e => compile pos k e ++ [.setGlobal i]
+  | .matchE s arms =>
+    -- the scrutinee stays on the stack while the arms are tested
+    let cs := compile pos k s
+    cs ++ compileArms (pos + bytes cs) (k + (consts s).length) arms
+/-- `compile_match_expression`, one arm after the other, with the scrutinee on the stack:
+```
+  tests of p1 | p2 | …   (each jumps to body on a match)
+  Jump over
+body: Pop; <body value>; Jump end      (no `Jump end` after the last arm)
+over: … next arm …
+end:
+```
+`end` is the end of the code of the remaining arms, so it is known when the arm is emitted. -/
+def compileArms (pos k : Nat) : CArms → List Instr
+  | .last d =>
+    -- the default arm: Jump body; Jump over; body: Pop; d; over:
+    let cd := compile (pos + 3 + 3 + 1) k d
+    [.jump (pos + 3 + 3), .jump (pos + 3 + 3 + 1 + bytes cd), .pop] ++ cd
+  | .cons pats body rest =>
+    let pb := pos + patsBytes pats + 3          -- the arm's body (its `Pop`)
+    let kb := k + (patsConsts pats).length
+    let cb := compile (pb + 1) kb body
+    let over := pb + 1 + bytes cb + 3
+    let cr := compileArms over (kb + (consts body).length) rest
+    compilePats pos k pb pats ++ [.jump over, .pop] ++ cb ++ [.jump (over + bytes cr)] ++ cr
+end
 
 /-! ## the machine -/
 
@@ -212,6 +376,7 @@ def step (C : List Instr) (K : List Val) (s : St) : Option St :=
     | .getGlobal i, stk => some ⟨s.pc + 3, s.g.getD i .null :: stk, s.g⟩
     | .setGlobal i, v :: stk => if i < s.g.length then some ⟨s.pc + 3, v :: stk, s.g.set i v⟩ else none
     | .defGlobal i, v :: stk => if i < s.g.length then some ⟨s.pc + 3, stk, s.g.set i v⟩ else none
+    | .dup, v :: stk => some ⟨s.pc + 1, v :: v :: stk, s.g⟩
     | _, _ => none
 
 inductive Steps (C : List Instr) (K : List Val) : St → St → Prop
